@@ -1332,7 +1332,7 @@ def replay(res, wd, path):
     res.evaluations = 1
     res.nontrivial = 2
     res.add_sample({"replayed": path, "stats": r["stats"]})
-    return res.finish()
+    return res.finish(write_evidence=False)
 
 
 def selftest(res, wd):
